@@ -25,6 +25,7 @@ from .c05_views import (
     productions,
     single_value,
     target_names,
+    value_cases,
     where_of,
 )
 from .common import conds, types_of, where
@@ -1006,3 +1007,160 @@ def check_matcher_wiring(repo: Repo, res: Result) -> None:
         res.undecide("C05.R1", construct, f"cannot tell which matcher class `{norm(factory, 40)}` denotes", where_of(view, c))
     else:
         res.add("C05.R1", construct, True, "the wrapped Rule judges with the configured layer matcher, bound to the architecture's layer mapping", where_of(view, c), kind="flow")
+
+
+# --------------------------------------------------------------------------- the layer mapping a rule evaluates with is current
+
+
+MUTATING = {"update", "setdefault", "pop", "popitem", "clear", "__setitem__", "__delitem__"}
+
+
+def check_layer_mapping_current(repo: Repo, res: Result) -> None:
+    """The `LayerMapping` a LayerRule binds its matcher to is derived from the architecture's *current* layer definition: if the
+    provider (`LayeredArchitecture.layer_mapping`) serves stored state that is a snapshot of the definition, every public method
+    that assigns modules to a layer must invalidate or refresh that state."""
+    T = types_of(repo)
+    arch = repo.cls(LAYER_RULE, "LayeredArchitecture")
+    lmap = repo.classes.get(f"{EVAL_ARCH}.LayerMapping")
+    provider = repo.lookup_method(arch, "layer_mapping")
+    construct = f"{arch.module.relpath}::LayeredArchitecture.layer_mapping::derived from the current layer definition"
+    if provider is None or lmap is None:
+        res.undecide("C05.R2", construct, "LayeredArchitecture.layer_mapping (the mapping LayerRule.layers_that binds the matcher to) not found", where(arch.methods.get("__init__") or next(iter(arch.methods.values())), arch.node))
+        return
+    fam = family(repo, arch)
+    pv = dview(repo, provider, arch, fam, tag="arch")
+    selfname = provider.param_names[0] if provider.param_names else "self"
+
+    def self_field(e: ast.expr) -> str | None:
+        return e.attr if isinstance(e, ast.Attribute) and isinstance(e.value, ast.Name) and e.value.id == selfname else None
+
+    def is_ctor(e: ast.expr, view: FuncInfo) -> bool:
+        if not isinstance(e, ast.Call):
+            return False
+        src = getattr(e, "_src", None)
+        ctx, orig = src if src is not None else (view, e)
+        try:
+            ci = T.ctor_class(ctx, orig)
+        except Exception:  # noqa: BLE001
+            return False
+        return ci is not None and ci.fq == lmap.fq
+
+    # ---- what the provider returns: a mapping built now, or stored state
+    cached: set[str] = set()
+    ctors: list[ast.Call] = []
+    for n in all_nodes(pv):
+        if isinstance(n, ast.Return) and n.value is not None:
+            for _cs, v in value_cases(pv, n.value):
+                f = self_field(v)
+                if f is not None:
+                    cached.add(f)
+                elif is_ctor(v, pv):
+                    ctors.append(v)
+        if isinstance(n, ast.Call) and is_ctor(n, pv):
+            ctors.append(n)
+    memoised = any(d in ("cached_property", "cache", "lru_cache") for d in provider.decorators)
+    if memoised:
+        cached.add(provider.name)  # functools keeps the first result: `del self.<name>` / cache_clear() are the invalidations
+    if not cached:
+        res.add("C05.R2", construct, True, "the layer mapping is built from the layer definition on every access", where(provider, provider.node), kind="flow")
+        return
+    # ---- the container of the layer definition: what the LayerMapping is constructed from
+    containers: set[str] = set()
+    copied_by_provider = False
+    for c in ctors:
+        for a in [*c.args, *[k.value for k in c.keywords]]:
+            f = self_field(single_value(pv, a))
+            if f is not None:
+                containers.add(f)
+            else:
+                for x in ast.walk(a):
+                    f = self_field(x)
+                    if f is not None and f not in cached:
+                        containers.add(f)
+                        copied_by_provider = True
+    if not containers:
+        res.undecide("C05.R2", construct, f"`{', '.join(sorted(cached))}` is served as the layer mapping, but the layer definition it is built from was not found", where(provider, provider.node))
+        return
+    # ---- is the stored mapping a live view of the definition, or a snapshot?
+    snapshot = copied_by_provider
+    init = repo.lookup_method(lmap, "__init__")
+    if init is not None and not snapshot:
+        iv = dview(repo, init, lmap, family(repo, lmap), tag="lmap")
+        param = init.param_names[1] if len(init.param_names) > 1 else None
+        read: set[str] = set()
+        for nm in ("all_layers", "get_module_filters"):
+            m = repo.lookup_method(lmap, nm)
+            if m is not None:
+                mv = dview(repo, m, lmap, family(repo, lmap), tag="lmap")
+                for x in all_nodes(mv):
+                    if isinstance(x, ast.Attribute) and isinstance(x.value, ast.Name) and x.value.id == m.param_names[0] and isinstance(x.ctx, ast.Load):
+                        read.add(x.attr)
+        for x in all_nodes(iv):
+            if isinstance(x, (ast.Assign, ast.AnnAssign)) and x.value is not None:
+                tg = x.targets[0] if isinstance(x, ast.Assign) else x.target
+                if isinstance(tg, ast.Attribute) and isinstance(tg.value, ast.Name) and tg.value.id == init.param_names[0] and tg.attr in read:
+                    v = single_value(iv, x.value)
+                    if not (isinstance(v, ast.Name) and v.id == param):
+                        snapshot = True
+    if not snapshot:
+        res.add("C05.R2", construct, True, f"`{', '.join(sorted(cached))}` is kept, but the mapping is a live view of the layer definition (all_layers / get_module_filters read the architecture's own dictionary)", where(provider, provider.node), kind="flow")
+        return
+    # ---- every public method that assigns modules to a layer invalidates / refreshes the stored mapping
+    lacking: list[str] = []
+    writers = 0
+    for c in repo.mro(arch):
+        for name, m in c.methods.items():
+            if name.startswith("_") or m.is_property or m.is_abstract or repo.lookup_method(arch, name) is not m:
+                continue
+            mv = dview(repo, m, arch, fam, tag="arch")
+            sn = m.param_names[0] if m.param_names else "self"
+            writes: list[ast.AST] = []
+            resets: list[ast.AST] = []
+            for x in all_nodes(mv):
+                if isinstance(x, (ast.Assign, ast.AugAssign, ast.AnnAssign)):
+                    tgs = x.targets if isinstance(x, ast.Assign) else [x.target]
+                    val = x.value
+                    for tg in tgs:
+                        base = tg
+                        while isinstance(base, ast.Subscript):
+                            base = base.value
+                        if isinstance(base, ast.Attribute) and isinstance(base.value, ast.Name) and base.value.id == sn:
+                            if base.attr in containers and val is not None and not _empty_value(val):
+                                writes.append(x)
+                            elif base.attr in cached and tg is base:
+                                resets.append(x)
+                elif isinstance(x, ast.Call) and isinstance(x.func, ast.Attribute) and x.func.attr in MUTATING:
+                    b = x.func.value
+                    if isinstance(b, ast.Attribute) and isinstance(b.value, ast.Name) and b.value.id == sn and b.attr in containers:
+                        writes.append(x)
+                    elif x.func.attr == "pop" and isinstance(b, ast.Attribute) and b.attr == "__dict__" and x.args and isinstance(x.args[0], ast.Constant) and x.args[0].value in cached:
+                        resets.append(x)
+                elif isinstance(x, ast.Call) and isinstance(x.func, ast.Attribute) and x.func.attr == "cache_clear" and memoised:
+                    resets.append(x)
+                elif isinstance(x, ast.Delete):
+                    for tg in x.targets:
+                        if isinstance(tg, ast.Attribute) and isinstance(tg.value, ast.Name) and tg.value.id == sn and tg.attr in cached:
+                            resets.append(x)
+            if not writes:
+                continue
+            writers += 1
+            ok = False
+            for w in writes:
+                gw = conds_formula(conds(mv, w))
+                ok = any(implies(gw, conds_formula(conds(mv, r))) for r in resets)
+                if not ok:
+                    break
+            if not ok:
+                lacking.append(name)
+    if lacking:
+        res.add("C05.R2", construct, False, f"`{', '.join(sorted(cached))}` holds a snapshot of the layer definition that is served to every rule, but `{'`, `'.join(sorted(lacking))}` assign(s) modules to a layer without invalidating it: a rule started before such a call evaluates with a mapping that lacks that layer (its modules are in 'no layer', an access requirement on it can never be violated)", where(provider, provider.node), kind="flow")
+    else:
+        res.add("C05.R2", construct, True, f"the stored layer mapping is invalidated by all {writers} method(s) that assign modules to a layer", where(provider, provider.node), kind="flow")
+
+
+def _empty_value(v: ast.expr) -> bool:
+    if isinstance(v, (ast.List, ast.Tuple, ast.Set)):
+        return not v.elts
+    if isinstance(v, ast.Dict):
+        return not v.keys
+    return isinstance(v, ast.Call) and isinstance(v.func, ast.Name) and v.func.id in ("list", "tuple", "set", "dict") and not v.args
